@@ -1,5 +1,6 @@
 import BqVerif.Proofs.PickleMain
 import BqVerif.Proofs.PickleKahn
+import BqVerif.Proofs.PickleEq
 import BqVerif.Proofs.PickleRec
 import BqVerif.Proofs.PickleErr
 /-!
@@ -205,14 +206,21 @@ example : (0 : Rat) ≤ 1/4 ∧ (1/4 : Rat) ≤ 1 ∧ errMul (1/4) (1/2) = 5/8 :
 
 /-- model `Operation.__eq__` is structural equality (hence reflexive, symmetric, transitive),
 equal operations hash equally, and an operation that went through the gate table
-(`marshal` / `mkOp`) comes back equal with the same hash. -/
+(`marshal` / `mkOp`) comes back equal with the same hash.  For the code after the fixes
+8f3ffc9 / c6a0f46 / 15423cf: `CircuitGate.__eq__` (length test, then zip) is equality of the
+whole operation sequence; `Circuit.__eq__` (equal gate-count tables, equal radix tuples, zip of
+the iterations) is equality of radixes and of the whole iteration; the hash of a coupling graph
+is the same for every listing of its edge set, so equal graphs hash equally. -/
 theorem C16_eq_hash :
     (∀ a b : Op, a.eqOp b = true ↔ a = b) ∧
     (∀ a b : Op, a.eqOp b = true → a.hashOp = b.hashOp ∧ a.gate.hash = b.gate.hash) ∧
     (∀ a b : Op, a.eqOp b = b.eqOp a) ∧
     (∀ (tbl : List GateId) (o : Op) (n : Nat) (rad : List Nat), o.WF n rad → o.gate ∈ tbl →
-      ∃ o', mkOp tbl (marshal tbl o) = .ok o' ∧ o'.eqOp o = true ∧ o'.hashOp = o.hashOp) := by
-  refine ⟨eqOp_iff, ?_, ?_, ?_⟩
+      ∃ o', mkOp tbl (marshal tbl o) = .ok o' ∧ o'.eqOp o = true ∧ o'.hashOp = o.hashOp) ∧
+    (∀ a b : List (GateId × List Nat), eqSeq a b = true ↔ a = b) ∧
+    (∀ (ra rb : List Nat) (a b : List Op), eqCircuit ra a rb b = true ↔ ra = rb ∧ a = b) ∧
+    (∀ (n : Nat) (l1 l2 : List (Nat × Nat)), l1.Perm l2 → graphHash n l1 = graphHash n l2) := by
+  refine ⟨eqOp_iff, ?_, ?_, ?_, eqSeq_iff, eqCircuit_iff, graphHash_perm⟩
   · intro a b h; rw [(eqOp_iff a b).1 h]; exact ⟨rfl, rfl⟩
   · intro a b
     by_cases h : a = b
@@ -228,6 +236,17 @@ theorem C16_eq_hash :
       rw [h1, h2]
   · intro tbl o n rad hw hg
     exact ⟨o, mkOp_marshal tbl o n rad hw hg, (eqOp_iff o o).2 rfl, rfl⟩
+
+/-- why the guards of the fixed code are needed: the zip alone accepts every prefix (so did
+`CircuitGate.__eq__` for operation sequences and `Circuit.__eq__` for radixes), and a hash of
+the listing itself separates two listings of one edge set. -/
+theorem C16_eq_hash_guards :
+    (∀ a t : List Nat, eqSeqZip a (a ++ t) = true ∧ eqSeqZip (a ++ t) a = true) ∧
+    graphHashOld 4 [(0, 1), (2, 3)] ≠ graphHashOld 4 [(2, 3), (0, 1)] ∧
+    graphHash 4 [(0, 1), (2, 3)] = graphHash 4 [(2, 3), (0, 1)] :=
+  ⟨eqSeqZip_prefix, by decide, by decide⟩
+
+example : [(0, 3), (1, 2), (2, 4)].Perm [(2, 4), (1, 2), (0, 3)] := by decide
 
 example : ∃ (tbl : List GateId) (o : Op), o.WF 3 [2, 3, 2] ∧ o.gate ∈ tbl :=
   ⟨[⟨6, [2, 2], 0⟩], ⟨6, [], [2, 0], [2, 2]⟩, ⟨by decide, by decide, by decide, by decide⟩, by decide⟩
